@@ -429,7 +429,10 @@ var scenPreds = []struct {
 	a int
 }{{"resource", 1}, {"operation", 1}, {"right", 2}, {"user", 1}, {"admin", 0}, {"owner", 2}, {"p", 1}, {"q", 2}, {"time", 1}, {"members", 1}}
 
-var memberSets = []Term{SetOf(S("alice"), S("bob"), S("carol")), SetOf(S("bob"), S("dave")), SetOf(I(1), I(2), I(3)), SetOf(S("alice"))}
+// the last four are written with repeated elements / in another order: the token layer keeps
+// each element once, so [1,1,2] and [1,2,2] are the same set {1,2} (finding D19)
+var memberSets = []Term{SetOf(S("alice"), S("bob"), S("carol")), SetOf(S("bob"), S("dave")), SetOf(I(1), I(2), I(3)), SetOf(S("alice")),
+	SetOf(I(1), I(1), I(2)), SetOf(I(1), I(2), I(2)), SetOf(S("bob"), S("alice"), S("bob")), SetOf(I(2), I(1))}
 
 func newScenGen(r *Rng, mode int) *scenGen {
 	g := &scenGen{r: r, arity: map[string]int{}, mode: mode}
@@ -551,9 +554,9 @@ func (g *scenGen) setBody() ([]Pred, []Expr) {
 	r := g.r
 	m := Op{K: 'v', T: V("m")}
 	lit := Op{K: 'v', T: Pick(r, memberSets)}
-	elem := Op{K: 'v', T: Pick(r, []Term{S("alice"), S("bob"), S("zed"), I(2)})}
+	elem := Op{K: 'v', T: Pick(r, []Term{S("alice"), S("bob"), S("zed"), I(2), I(1)})}
 	var e Expr
-	switch r.Intn(5) {
+	switch r.Intn(6) {
 	case 0:
 		e = Expr{m, lit, {K: 'b', B: "intersection"}, {K: 'u', U: "len"}, {K: 'v', T: I(int64(r.Intn(3)))}, {K: 'b', B: Pick(r, []string{"ge", "gt", "eq"})}}
 	case 1:
@@ -562,6 +565,9 @@ func (g *scenGen) setBody() ([]Pred, []Expr) {
 		e = Expr{m, elem, {K: 'b', B: "contains"}}
 	case 3:
 		e = Expr{m, lit, {K: 'b', B: "contains"}}
+	case 4:
+		one := Op{K: 'v', T: SetOf(Pick(r, []Term{I(1), I(2), S("bob")}))}
+		e = Expr{m, one, {K: 'b', B: "intersection"}, {K: 'u', U: "len"}, {K: 'v', T: I(int64(1 + r.Intn(2)))}, {K: 'b', B: "eq"}}
 	default:
 		e = Expr{m, lit, {K: 'b', B: "intersection"}, lit, {K: 'b', B: "eq"}}
 	}
